@@ -625,7 +625,13 @@ fn render_child(
 {
     let child_path = field_ctx.0;
     let child_name = child_path.child_path[field_ctx.1].to_token_stream();
-    let ty = &child_data.ty;
+    // the type is given as 'Type<Args>'; in front of a struct expression the arguments need '::'
+    let mut ty = child_data.ty.clone();
+    for segment in ty.segments.iter_mut() {
+        if let syn::PathArguments::AngleBracketed(args) = &mut segment.arguments {
+            args.colon2_token.get_or_insert_with(Default::default);
+        }
+    }
     let init = struct_init_block_inner(fields, named_fields, ctx, Some((field_ctx.0, Some(child_data), field_ctx.1)));
     match (ctx.input.named_fields(), hint) {
         (true, TypeHint::Struct | TypeHint::Unspecified) => quote!(#child_name: #ty #init,),
